@@ -540,7 +540,7 @@ theorem syncDay_refines {rights : List Bool} (hA : AllRights rights) {dst src : 
       cases hdd : (abs dst).dead id with
       | true =>
         simp only [Bool.not_true, Bool.false_and, Bool.false_eq_true, ↓reduceIte]
-        rw [hv2]; exact abs_wf hzd id hdd
+        exact abs_wf hzd id hdd
       | false =>
         simp only [Bool.not_false, Bool.true_and, Bool.false_eq_true, ↓reduceIte]
         cases hvd : (abs dst).ver id with
@@ -549,7 +549,6 @@ theorem syncDay_refines {rights : List Bool} (hA : AllRights rights) {dst src : 
           simp only [merge, vmax]
           by_cases hle : vle (n.mdate, n.sig) v
           · simp only [hle, decide_true, Bool.not_true, Bool.false_eq_true, ↓reduceIte]
-            rw [hv2, hvd]
             by_cases hle2 : vle v (n.mdate, n.sig)
             · simp only [hle2, ↓reduceIte]; rw [vle_antisymm hle hle2]
             · simp only [hle2, ↓reduceIte]
